@@ -810,7 +810,7 @@ def collect_as_lists(
             continue
         # Translate original output names to renamed names
         renamed_values = node.map_outputs_from_original(result.values)
+        # One entry per item for every output: None where the item did not produce it
         for name in node.outputs:
-            if name in renamed_values:
-                collected[name].append(renamed_values[name])
+            collected[name].append(renamed_values.get(name))
     return collected
